@@ -1,0 +1,228 @@
+//go:build verif
+
+package align
+
+// Contracts for property C14 (column statistics), third batch. Comments only;
+// compiled (to nothing) only under the build tag "verif". Shared vocabulary
+// (nrows, cell, wfa, colcnt, upcnt, up8, insites, ...) is in zz_contracts_verif.go.
+
+// ---- InformativeSites ----
+
+// the "any residue" character of the alignment: X for proteins, N for nucleotides ('.' for an unknown alphabet, as the code)
+//@ pure func c14c_wild(a *align) int = (a.alphabet == AMINOACIDS ? 'X' : (a.alphabet == NUCLEOTIDS ? 'N' : '.'))
+// the residue of row r in column s counts: not a gap, not '.', not the wildcard (in either case: "X, N and GAPS are not considered", mixed-case alignments)
+//@ pure func c14c_cnts(a *align, r int, s int) bool = cell(a, r, s) != '-' && cell(a, r, s) != '.' && up8(cell(a, r, s)) != c14c_wild(a)
+// the case-folded character x is carried by a counting residue of column s among the first n rows
+//@ opaque func c14c_seen(a *align, s int, x int, n int) bool = exists r :: 0 <= r && r < n && c14c_cnts(a, r, s) && up8(cell(a, r, s)) == x
+// ... by at least two of them
+//@ opaque func c14c_pair(a *align, s int, x int, n int) bool = exists r1, r2 :: 0 <= r1 && r1 < r2 && r2 < n && c14c_cnts(a, r1, s) && c14c_cnts(a, r2, s) && up8(cell(a, r1, s)) == x && up8(cell(a, r2, s)) == x
+// column s is parsimony-informative: two different case-folded characters occur at least twice each among the counting residues
+//@ opaque func c14c_inf(a *align, s int) bool = exists x, y :: 0 <= x && x < y && y < 256 && c14c_pair(a, s, x, nrows(a)) && c14c_pair(a, s, y, nrows(a))
+
+//@ func (*align).InformativeSites
+//@   props C14 C19
+//@   requires wfa(a)
+//@   requires forall r, c :: 0 <= r && r < nrows(a) && 0 <= c && c < a.length ==> cell(a, r, c) < 130
+//@   ensures fresh(sites) && len(sites) <= max(a.length, 0)
+//@   ensures forall j :: 0 <= j && j < len(sites) ==> 0 <= sites[j] && sites[j] < a.length && c14c_inf(a, sites[j])
+//@   ensures forall j :: 0 <= j && j + 1 < len(sites) ==> sites[j] < sites[j+1]
+// NOT COVERED (completeness: every informative site is reported; `unknown` together with the break-path facts, see report) ensures forall s :: 0 <= s && s < a.length && c14c_inf(a, s) ==> insites(sites, len(sites), s)
+//@   modifies nothing
+//@   loop 1
+//@     invariant 0 <= site && site <= max(a.length, 0) && fresh(sites) && len(sites) <= site && all == c14c_wild(a)
+//@     invariant forall j :: 0 <= j && j < len(sites) ==> 0 <= sites[j] && sites[j] < site && c14c_inf(a, sites[j])
+//@     invariant forall j :: 0 <= j && j + 1 < len(sites) ==> sites[j] < sites[j+1]
+// NOT COVERED (completeness: every informative site is reported; `unknown` together with the break-path facts, see report) invariant forall s :: 0 <= s && s < site && c14c_inf(a, s) ==> insites(sites, len(sites), s)
+//@     decreases a.length - site
+//@   loop 2
+//@     modifies mapstats[*]
+//@     invariant 0 <= site && site < a.length && fresh(sites) && len(sites) <= site && all == c14c_wild(a) && fresh(mapstats) && len(mapstats) == 130 && base(mapstats) != base(sites)
+//@     invariant forall j :: 0 <= j && j < len(sites) ==> 0 <= sites[j] && sites[j] < site && c14c_inf(a, sites[j])
+//@     invariant forall j :: 0 <= j && j + 1 < len(sites) ==> sites[j] < sites[j+1]
+// NOT COVERED (completeness: every informative site is reported; `unknown` together with the break-path facts, see report) invariant forall s :: 0 <= s && s < site && c14c_inf(a, s) ==> insites(sites, len(sites), s)
+//@     invariant forall x :: 0 <= x && x < 130 ==> mapstats[x] >= 0
+//@     invariant forall x :: 0 <= x && x < 130 ==> (mapstats[x] >= 1) == c14c_seen(a, site, x, $i)
+//@     invariant forall x :: 0 <= x && x < 130 ==> (mapstats[x] >= 2) == c14c_pair(a, site, x, $i)
+//@     invariant forall x :: 130 <= x && x < 256 ==> !c14c_seen(a, site, x, $i)
+//@     invariant forall x :: 130 <= x && x < 256 ==> !c14c_pair(a, site, x, $i)
+// (a fact about the NEXT row that names the terms needed when the loop is left by `break`: a character counted twice is a pair of rows of the whole column)
+//@     invariant $i < nrows(a) && c14c_cnts(a, $i, site) && c14c_seen(a, site, up8(cell(a, $i, site)), $i) ==> c14c_pair(a, site, up8(cell(a, $i, site)), nrows(a))
+//@     invariant 0 <= nbinformative && nbinformative <= 1
+//@     invariant nbinformative == 0 ==> forall x :: 0 <= x && x < 130 ==> mapstats[x] <= 1
+//@     invariant nbinformative == 1 ==> exists x0 :: 0 <= x0 && x0 < 130 && mapstats[x0] >= 2 && ($i < nrows(a) ==> c14c_pair(a, site, x0, nrows(a))) && (forall x :: 0 <= x && x < 130 && x != x0 ==> mapstats[x] <= 1)
+//@     decreases nrows(a) - $i
+
+// ---- EqualOrCompatible ----
+// nt1, nt2 are IUPAC bit sets over A=1, C=2, G=4, T=8 (NT_N = 15 is the largest code). Compatible = identical, or the two sets share a base.
+//@ func EqualOrCompatible
+//@   props C14 C19
+//@   ensures (err != nil) == (nt1 > NT_N || nt2 > NT_N)
+//@   ensures err != nil ==> !ok
+//@   ensures err == nil ==> ok == c14b_compat(nt1, nt2)
+//@   ensures err == nil ==> ok == (nt1 == nt2 || ((nt1 & 1) > 0 && (nt2 & 1) > 0) || ((nt1 & 2) > 0 && (nt2 & 2) > 0) || ((nt1 & 4) > 0 && (nt2 & 4) > 0) || ((nt1 & 8) > 0 && (nt2 & 8) > 0))
+//@   modifies nothing
+
+// ---- UniqueCharacters ----
+// the case-folded character x occurs among the first n residues of row r / in one of the first nr rows
+//@ opaque func c14c_inrow(sb *seqbag, r int, x int, n int) bool = exists c :: 0 <= c && c < n && up8(cell(sb, r, c)) == x
+//@ opaque func c14c_inbag(sb *seqbag, x int, nr int) bool = exists r :: 0 <= r && r < nr && c14c_inrow(sb, r, x, rowlen(sb, r))
+//@ opaque func c14c_inchars(chars []uint8, n int, x int) bool = exists j :: 0 <= j && j < n && chars[j] == x
+
+// the result lists, in increasing order and without repetition, exactly the case-folded characters that occur in the bag
+// (the function indexes a 130-entry table: residues are required to be below 130, as for CharStats)
+//@ func (*seqbag).UniqueCharacters
+//@   props C14 C19
+//@   requires sb != nil && rowsok(sb)
+//@   requires forall r, c :: 0 <= r && r < nrows(sb) && 0 <= c && c < rowlen(sb, r) ==> cell(sb, r, c) < 130
+//@   ensures fresh(chars) && len(chars) <= 130
+//@   ensures forall j, x :: 0 <= j && j < len(chars) && x == chars[j] ==> 0 <= x && x < 130 && old(c14c_inbag(sb, x, nrows(sb)))
+//@   ensures forall j :: 0 <= j && j + 1 < len(chars) ==> chars[j] < chars[j+1]
+//@   ensures forall x :: 0 <= x && x < 256 && old(c14c_inbag(sb, x, nrows(sb))) ==> c14c_inchars(chars, len(chars), x)
+//@   modifies nothing
+//@   loop 1
+//@     modifies present[*]
+//@     invariant fresh(chars) && len(chars) == 0 && fresh(present) && len(present) == 130
+//@     invariant forall x :: 0 <= x && x < 130 ==> present[x] == c14c_inbag(sb, x, $i)
+//@     invariant forall x :: 130 <= x && x < 256 ==> !c14c_inbag(sb, x, $i)
+//@     decreases nrows(sb) - $i
+//@   loop 2
+//@     modifies present[*]
+//@     invariant fresh(chars) && len(chars) == 0 && fresh(present) && len(present) == 130 && seq == row(sb, $i1 - 1) && 0 <= $i1 - 1 && $i1 - 1 < nrows(sb)
+//@     invariant forall x :: 0 <= x && x < 130 ==> present[x] == (c14c_inbag(sb, x, $i1 - 1) || c14c_inrow(sb, $i1 - 1, x, $i))
+//@     invariant forall x :: 130 <= x && x < 256 ==> !c14c_inbag(sb, x, $i1 - 1) && !c14c_inrow(sb, $i1 - 1, x, $i)
+//@     decreases rowlen(sb, $i1 - 1) - $i
+//@   loop 3
+//@     invariant fresh(chars) && len(chars) <= $i && len(present) == 130 && fresh(present)
+//@     invariant forall x :: 0 <= x && x < 130 ==> present[x] == old(c14c_inbag(sb, x, nrows(sb)))
+//@     invariant forall x :: 130 <= x && x < 256 ==> !old(c14c_inbag(sb, x, nrows(sb)))
+//@     invariant forall j :: 0 <= j && j < len(chars) ==> chars[j] < $i && present[chars[j]]
+//@     invariant forall j :: 0 <= j && j + 1 < len(chars) ==> chars[j] < chars[j+1]
+//@     invariant forall x :: 0 <= x && x < $i && present[x] ==> c14c_inchars(chars, len(chars), x)
+//@     decreases 130 - $i
+
+// ---- count profile (reference counts per character and site) ----
+// well-formed profile: a 130-entry character index whose entries are -1 (absent) or a row of the count table
+//@ pure func c14c_wfp(p *CountProfile) bool = p != nil && len(p.names) == 130 && (forall k :: 0 <= k && k < 130 ==> p.names[k] < len(p.counts))
+// every row of the count table has n sites
+//@ pure func c14c_plen(p *CountProfile, n int) bool = forall v :: 0 <= v && v < len(p.counts) ==> len(p.counts[v]) == n
+// number of occurrences of character x at site i recorded in the profile (0 when the character or the site is absent: what Count returns)
+//@ pure func c14c_pcount(p *CountProfile, x int, i int) int = (p.names[x] < 0 || i < 0 || i >= len(p.counts[p.names[x]]) ? 0 : p.counts[p.names[x]][i])
+
+//@ func (*CountProfile).CheckLength
+//@   props C14 C19
+//@   requires p != nil
+//@   ensures result == c14c_plen(p, length)
+//@   modifies nothing
+//@   loop 1
+//@     invariant forall v :: 0 <= v && v < $i ==> len(p.counts[v]) == length
+//@     decreases len(p.counts) - $i
+
+// ---- NumGapsUniquePerSequence ----
+// row j holds the only gap of column i
+//@ pure func c14c_ugap(a *align, j int, i int) bool = cell(a, j, i) == '-' && (forall r :: 0 <= r && r < nrows(a) && r != j ==> cell(a, r, i) != '-')
+// two rows among the first n hold a gap in column i
+//@ opaque func c14c_twogaps(a *align, i int, n int) bool = exists r1, r2 :: 0 <= r1 && r1 < r2 && r2 < n && cell(a, r1, i) == '-' && cell(a, r2, i) == '-'
+// among the first m columns: gaps of row j that are unique in their column / that the profile has never seen / both
+//@ pure func c14c_nug(a *align, j int, m int) int = (m <= 0 ? 0 : c14c_nug(a, j, m-1) + (c14c_ugap(a, j, m-1) ? 1 : 0))
+//@ pure func c14c_ngnew(a *align, p *CountProfile, j int, m int) int = (m <= 0 ? 0 : c14c_ngnew(a, p, j, m-1) + (cell(a, j, m-1) == '-' && c14c_pcount(p, '-', m-1) == 0 ? 1 : 0))
+//@ pure func c14c_ngboth(a *align, p *CountProfile, j int, m int) int = (m <= 0 ? 0 : c14c_ngboth(a, p, j, m-1) + (c14c_ugap(a, j, m-1) && c14c_pcount(p, '-', m-1) == 0 ? 1 : 0))
+// the three result slices: one fresh cell per row, no shared storage
+//@ pure func c14c_res3(a *align, u []int, n []int, b []int) bool = len(u) == nrows(a) && len(n) == nrows(a) && len(b) == nrows(a) && fresh(u) && fresh(n) && fresh(b) && base(u) != base(n) && base(u) != base(b) && base(n) != base(b)
+
+//@ func (*align).NumGapsUniquePerSequence
+//@   props C14 C19
+//@   requires wfa(a)
+//@   requires countProfile != nil ==> c14c_wfp(countProfile)
+//@   ensures (err != nil) == (countProfile != nil && !c14c_plen(countProfile, a.length))
+//@   ensures c14c_res3(a, numuniques, numnew, numboth)
+//@   ensures err == nil ==> forall j :: 0 <= j && j < nrows(a) ==> numuniques[j] == old(c14c_nug(a, j, a.length))
+//@   ensures err == nil && countProfile == nil ==> forall j :: 0 <= j && j < nrows(a) ==> numnew[j] == 0 && numboth[j] == 0
+//@   ensures err == nil && countProfile != nil ==> forall j :: 0 <= j && j < nrows(a) ==> numnew[j] == old(c14c_ngnew(a, countProfile, j, a.length)) && numboth[j] == old(c14c_ngboth(a, countProfile, j, a.length))
+//@   modifies nothing
+//@   loop 1
+//@     invariant err == nil && 0 <= i && i <= max(a.length, 0) && c14c_res3(a, numuniques, numnew, numboth) && (countProfile != nil ==> old(c14c_plen(countProfile, a.length)))
+//@     invariant forall j :: 0 <= j && j < nrows(a) ==> numuniques[j] == old(c14c_nug(a, j, i))
+//@     invariant countProfile == nil ==> forall j :: 0 <= j && j < nrows(a) ==> numnew[j] == 0 && numboth[j] == 0
+//@     invariant countProfile != nil ==> forall j :: 0 <= j && j < nrows(a) ==> numnew[j] == old(c14c_ngnew(a, countProfile, j, i)) && numboth[j] == old(c14c_ngboth(a, countProfile, j, i))
+//@     decreases a.length - i
+//@   loop 2
+//@     modifies numnew[*]
+//@     invariant err == nil && 0 <= i && i < a.length && c14c_res3(a, numuniques, numnew, numboth) && (countProfile != nil ==> old(c14c_plen(countProfile, a.length)))
+//@     invariant forall j :: 0 <= j && j < nrows(a) ==> numuniques[j] == old(c14c_nug(a, j, i))
+//@     invariant countProfile == nil ==> forall j :: 0 <= j && j < nrows(a) ==> numnew[j] == 0 && numboth[j] == 0
+//@     invariant countProfile != nil ==> forall j :: 0 <= j && j < nrows(a) ==> numboth[j] == old(c14c_ngboth(a, countProfile, j, i)) && numnew[j] == old(c14c_ngnew(a, countProfile, j, i)) + (j < $i && old(cell(a, j, i)) == '-' && old(c14c_pcount(countProfile, '-', i)) == 0 ? 1 : 0)
+//@     invariant 0 <= nbGapsColumn
+//@     invariant nbGapsColumn == 0 ==> forall r :: 0 <= r && r < $i ==> old(cell(a, r, i)) != '-'
+//@     invariant nbGapsColumn == 1 ==> 0 <= uniqueIndex && uniqueIndex < $i && old(cell(a, uniqueIndex, i)) == '-' && (forall r :: 0 <= r && r < $i && r != uniqueIndex ==> old(cell(a, r, i)) != '-')
+//@     invariant nbGapsColumn >= 2 ==> old(c14c_twogaps(a, i, $i))
+//@     decreases nrows(a) - $i
+
+// ---- NumMutationsUniquePerSequence ----
+// (characters are compared byte-exact, as the code does: 'a' and 'A' are two different characters here; the function indexes
+//  130-entry tables with the residue: residues are required to be below 130, as for CharStats)
+// the residue of row j in column i is a mutation candidate: neither the wildcard nor a gap
+//@ pure func c14c_cand(a *align, j int, i int) bool = cell(a, j, i) != c14c_wild(a) && cell(a, j, i) != '-'
+// ... and no other row holds the same character in that column
+//@ pure func c14c_umut(a *align, j int, i int) bool = c14c_cand(a, j, i) && (forall r :: 0 <= r && r < nrows(a) && r != j ==> cell(a, r, i) != cell(a, j, i))
+// ... and the profile has never seen that character at that site
+//@ pure func c14c_newmut(a *align, p *CountProfile, j int, i int) bool = c14c_cand(a, j, i) && c14c_pcount(p, cell(a, j, i), i) == 0
+// two rows among the first n hold the character x in column i
+//@ opaque func c14c_twoof(a *align, i int, x int, n int) bool = exists r1, r2 :: 0 <= r1 && r1 < r2 && r2 < n && cell(a, r1, i) == x && cell(a, r2, i) == x
+// among the first m columns: residues of row j that are unique in their column / new with respect to the profile / both
+//@ pure func c14c_nmu(a *align, j int, m int) int = (m <= 0 ? 0 : c14c_nmu(a, j, m-1) + (c14c_umut(a, j, m-1) ? 1 : 0))
+//@ pure func c14c_nmnew(a *align, p *CountProfile, j int, m int) int = (m <= 0 ? 0 : c14c_nmnew(a, p, j, m-1) + (c14c_newmut(a, p, j, m-1) ? 1 : 0))
+//@ pure func c14c_nmboth(a *align, p *CountProfile, j int, m int) int = (m <= 0 ? 0 : c14c_nmboth(a, p, j, m-1) + (c14c_umut(a, j, m-1) && c14c_newmut(a, p, j, m-1) ? 1 : 0))
+// the two work tables of one column: 130 fresh cells each, disjoint from each other and from the results
+//@ pure func c14c_work(occ []int, ind []int, u []int, n []int, b []int) bool = len(occ) == 130 && len(ind) == 130 && fresh(occ) && fresh(ind) && base(occ) != base(ind) && base(occ) != base(u) && base(occ) != base(n) && base(occ) != base(b) && base(ind) != base(u) && base(ind) != base(n) && base(ind) != base(b)
+// what the tables say about the first n rows of column i
+//@ pure func c14c_occ0(a *align, i int, occ []int, n int) bool = forall x, r :: 0 <= x && x < 130 && occ[x] == 0 && 0 <= r && r < n ==> cell(a, r, i) != x
+//@ pure func c14c_occ1(a *align, i int, occ []int, ind []int, n int) bool = (forall x :: 0 <= x && x < 130 && occ[x] == 1 ==> 0 <= ind[x] && ind[x] < n && cell(a, ind[x], i) == x) && (forall x, r :: 0 <= x && x < 130 && occ[x] == 1 && 0 <= r && r < n && r != ind[x] ==> cell(a, r, i) != x)
+//@ pure func c14c_occ2(a *align, i int, occ []int, n int) bool = forall x :: 0 <= x && x < 130 ==> occ[x] >= 0 && (occ[x] >= 2 ==> old(c14c_twoof(a, i, x, n)))
+
+//@ func (*align).NumMutationsUniquePerSequence
+//@   props C14 C19
+//@   requires wfa(a)
+//@   requires forall r, c :: 0 <= r && r < nrows(a) && 0 <= c && c < a.length ==> cell(a, r, c) < 130
+//@   requires countProfile != nil ==> c14c_wfp(countProfile)
+//@   ensures (err != nil) == (countProfile != nil && !c14c_plen(countProfile, a.length))
+//@   ensures c14c_res3(a, numuniques, numnew, numboth)
+//@   ensures err == nil ==> forall j :: 0 <= j && j < nrows(a) ==> numuniques[j] == old(c14c_nmu(a, j, a.length))
+//@   ensures err == nil && countProfile == nil ==> forall j :: 0 <= j && j < nrows(a) ==> numnew[j] == 0 && numboth[j] == 0
+//@   ensures err == nil && countProfile != nil ==> forall j :: 0 <= j && j < nrows(a) ==> numnew[j] == old(c14c_nmnew(a, countProfile, j, a.length)) && numboth[j] == old(c14c_nmboth(a, countProfile, j, a.length))
+//@   modifies nothing
+//@   loop 1
+//@     invariant err == nil && 0 <= i && i <= max(a.length, 0) && all == c14c_wild(a) && c14c_res3(a, numuniques, numnew, numboth) && (countProfile != nil ==> old(c14c_plen(countProfile, a.length)))
+//@     invariant forall j :: 0 <= j && j < nrows(a) ==> numuniques[j] == old(c14c_nmu(a, j, i))
+//@     invariant countProfile == nil ==> forall j :: 0 <= j && j < nrows(a) ==> numnew[j] == 0 && numboth[j] == 0
+//@     invariant countProfile != nil ==> forall j :: 0 <= j && j < nrows(a) ==> numnew[j] == old(c14c_nmnew(a, countProfile, j, i)) && numboth[j] == old(c14c_nmboth(a, countProfile, j, i))
+//@     decreases a.length - i
+//@   loop 2
+//@     modifies occurences[*], indices[*], numnew[*]
+//@     invariant err == nil && 0 <= i && i < a.length && all == c14c_wild(a) && c14c_res3(a, numuniques, numnew, numboth) && (countProfile != nil ==> old(c14c_plen(countProfile, a.length))) && c14c_work(occurences, indices, numuniques, numnew, numboth)
+//@     invariant forall j :: 0 <= j && j < nrows(a) ==> numuniques[j] == old(c14c_nmu(a, j, i))
+//@     invariant countProfile == nil ==> forall j :: 0 <= j && j < nrows(a) ==> numnew[j] == 0 && numboth[j] == 0
+//@     invariant countProfile != nil ==> forall j :: 0 <= j && j < nrows(a) ==> numboth[j] == old(c14c_nmboth(a, countProfile, j, i)) && numnew[j] == old(c14c_nmnew(a, countProfile, j, i)) + (j < $i && old(c14c_newmut(a, countProfile, j, i)) ? 1 : 0)
+//@     invariant c14c_occ0(a, i, occurences, $i)
+//@     invariant c14c_occ1(a, i, occurences, indices, $i)
+//@     invariant c14c_occ2(a, i, occurences, $i)
+//@     decreases nrows(a) - $i
+//@   loop 3
+//@     modifies numuniques[*], numboth[*]
+//@     invariant err == nil && 0 <= i && i < a.length && all == c14c_wild(a) && c14c_res3(a, numuniques, numnew, numboth) && (countProfile != nil ==> old(c14c_plen(countProfile, a.length))) && c14c_work(occurences, indices, numuniques, numnew, numboth)
+//@     invariant c14c_occ0(a, i, occurences, nrows(a)) && c14c_occ1(a, i, occurences, indices, nrows(a)) && c14c_occ2(a, i, occurences, nrows(a))
+//@     invariant forall j :: 0 <= j && j < nrows(a) ==> numuniques[j] == old(c14c_nmu(a, j, i)) + (old(cell(a, j, i)) < $i && old(c14c_umut(a, j, i)) ? 1 : 0)
+//@     invariant countProfile == nil ==> forall j :: 0 <= j && j < nrows(a) ==> numnew[j] == 0 && numboth[j] == 0
+//@     invariant countProfile != nil ==> forall j :: 0 <= j && j < nrows(a) ==> numnew[j] == old(c14c_nmnew(a, countProfile, j, i)) + (old(c14c_newmut(a, countProfile, j, i)) ? 1 : 0)
+//@     invariant countProfile != nil ==> forall j :: 0 <= j && j < nrows(a) ==> numboth[j] == old(c14c_nmboth(a, countProfile, j, i)) + (old(cell(a, j, i)) < $i && old(c14c_umut(a, j, i)) && old(c14c_newmut(a, countProfile, j, i)) ? 1 : 0)
+//@     decreases 130 - $i
+
+// ---- CountDifferences (SAFETY + SHAPE only: the counting literal handed to IterateChar is not under contract) ----
+// one map per sequence after the first; no crash on any alignment (the `makeslice` obligation of `diffs` is the one that matters:
+// it needs nrows(a) - 1 >= 0)
+//@ func (*align).CountDifferences
+//@   props C14
+//@   requires wfa(a)
+//@   ensures len(diffs) == max(nrows(a) - 1, 0) && fresh(diffs)
+//@   ensures nrows(a) < 2 ==> len(alldiffs) == 0 && fresh(alldiffs)
+// frame: over-approximated (everything the uncontracted literal may write: string / map / interface slice memory and maps of these types); the residues are not written
+//@   modifies mem(string), mem(map[string]int), mem(any), maps(map[string]int), maps(map[string]bool)
